@@ -64,68 +64,67 @@ Proof. unfold bc. destruct (1 =? y) eqn:E; [apply Z.eqb_eq in E; now subst|refle
 Definition wf_arg (np : nat) (a : sarg) : Prop := match a with AList l => length l = np | _ => True end.
 Definition eff_pad2 (a : sarg) : Z * Z := match a with ANone => (0, 0) | AScalar p => (p, p) | AList l => (znth l 0, znth l 1) end.
 Definition eff_str2 (a : sarg) : Z * Z := match a with ANone => (1, 1) | AScalar p => (p, p) | AList l => (znth l 0, znth l 1) end.
-(* dilation[0] lands on the last axis *)
-Definition eff_dil2 (a : sarg) : Z * Z := match a with ANone => (1, 1) | AScalar p => (p, p) | AList l => (znth l 1, znth l 0) end.
+Definition eff_dil2 (a : sarg) : Z * Z := match a with ANone => (1, 1) | AScalar p => (p, p) | AList l => (znth l 0, znth l 1) end.
 Definition eff1 (dflt : Z) (a : sarg) : Z := match a with ANone => dflt | AScalar p => p | AList l => znth l 0 end.
 
 (* ======================= conv2d: the shape through the pipeline ======================= *)
 Section Conv2dShape.
-Variables (Cg H W O kh kw g : Z).
-Hypotheses (HCg : 1 <= Cg) (HH : 1 <= H) (HW : 1 <= W) (HO : 1 <= O) (Hkh : 1 <= kh) (Hkw : 1 <= kw) (Hg : 1 <= g)
+Variables (N Cg H W O kh kw g : Z).
+Hypotheses (HN : 1 <= N) (HCg : 1 <= Cg) (HH : 1 <= H) (HW : 1 <= W) (HO : 1 <= O) (Hkh : 1 <= kh) (Hkw : 1 <= kw) (Hg : 1 <= g)
            (HOg : O mod g = 0).
 
 Lemma a_weight_shape2 w dl : vshape w = [O; Cg; kh; kw] -> wf_arg 2 dl ->
   1 <= fst (eff_dil2 dl) -> 1 <= snd (eff_dil2 dl) ->
   exists aw, conv_a_weight 2 w dl g = Some aw
-    /\ vshape aw = [O / g; g; Cg; kh + (kh - 1) * (fst (eff_dil2 dl) - 1); kw + (kw - 1) * (snd (eff_dil2 dl) - 1)].
+    /\ vshape aw = [g; O / g; Cg; kh + (kh - 1) * (fst (eff_dil2 dl) - 1); kw + (kw - 1) * (snd (eff_dil2 dl) - 1)].
 Proof.
   intros Hw Hwf D1 D2. unfold conv_a_weight. rewrite Hw.
-  change (conv_reshape_weight [O; Cg; kh; kw] g 2) with [O / g; g; Cg; kh; kw].
+  change (conv_reshape_weight [O; Cg; kh; kw] g 2) with [g; O / g; Cg; kh; kw].
   destruct (div_pos_exact O g HO Hg HOg) as [Q1 Q2].
-  destruct (v_reshape_some w [O / g; g; Cg; kh; kw]) as [rw [E [S _]]].
+  destruct (v_reshape_some w [g; O / g; Cg; kh; kw]) as [rw [E [S _]]].
   { rewrite Hw. unfold product. cbn [fold_left]. rewrite Q2 at 1. ring. }
   { posb_true. }
   rewrite E. cbn [obind].
   destruct dl as [|d|l].
   - eexists. split; [reflexivity|]. rewrite S. cbn [eff_dil2 fst snd]. leq.
   - eexists. split; [reflexivity|]. cbn [v_expand vshape]. rewrite S. cbn [eff_dil2 fst snd].
-    change (shape_expand [O / g; g; Cg; kh; kw] (conv_window_axis 2) (conv_expand_spacing (AScalar d) 2))
-      with [O / g; g; Cg; kh + (kh - 1) * (d - 1); kw + (kw - 1) * (d - 1)]. reflexivity.
+    change (shape_expand [g; O / g; Cg; kh; kw] (conv_window_axis 2) (conv_expand_spacing (AScalar d) 2))
+      with [g; O / g; Cg; kh + (kh - 1) * (d - 1); kw + (kw - 1) * (d - 1)]. reflexivity.
   - destruct l as [|d0 [|d1 [|]]]; try discriminate Hwf.
     eexists. split; [reflexivity|]. cbn [v_expand vshape]. rewrite S. cbn [eff_dil2 fst snd].
-    change (shape_expand [O / g; g; Cg; kh; kw] (conv_window_axis 2) (conv_expand_spacing (AList [d0; d1]) 2))
-      with [O / g; g; Cg; kh + (kh - 1) * (d1 - 1); kw + (kw - 1) * (d0 - 1)]. reflexivity.
+    change (shape_expand [g; O / g; Cg; kh; kw] (conv_window_axis 2) (conv_expand_spacing (AList [d0; d1]) 2))
+      with [g; O / g; Cg; kh + (kh - 1) * (d0 - 1); kw + (kw - 1) * (d1 - 1)]. reflexivity.
 Qed.
 
-Lemma a_input_shape2 x pd : vshape x = [1; g * Cg; H; W] -> wf_arg 2 pd ->
+Lemma a_input_shape2 x pd : vshape x = [N; g * Cg; H; W] -> wf_arg 2 pd ->
   0 <= fst (eff_pad2 pd) -> 0 <= snd (eff_pad2 pd) ->
   exists ax, conv_a_input 2 x pd g = Some ax
-    /\ vshape ax = [1; 1; g; Cg; H + 2 * fst (eff_pad2 pd); W + 2 * snd (eff_pad2 pd)].
+    /\ vshape ax = [N; g; 1; Cg; H + 2 * fst (eff_pad2 pd); W + 2 * snd (eff_pad2 pd)].
 Proof.
   intros Hx Hwf P1 P2. unfold conv_a_input. rewrite Hx.
-  change (conv_reshape_input [1; g * Cg; H; W] g 2) with [1; 1; g; g * Cg / g; H; W].
+  change (conv_reshape_input [N; g * Cg; H; W] g 2) with [N; g; 1; g * Cg / g; H; W].
   rewrite (mul_div_l g Cg Hg).
-  destruct (v_reshape_some x [1; 1; g; Cg; H; W]) as [rx [E [S _]]].
+  destruct (v_reshape_some x [N; g; 1; Cg; H; W]) as [rx [E [S _]]].
   { rewrite Hx. unfold product. cbn [fold_left]. ring. }
   { posb_true. }
   rewrite E. cbn [obind].
   destruct pd as [|p|l].
   - eexists. split; [reflexivity|]. rewrite S. cbn [eff_pad2 fst snd]. leq.
   - unfold v_pad. rewrite S.
-    change (shape_pad [1; 1; g; Cg; H; W] (conv_pad (zlen [1; 1; g; Cg; H; W]) (AScalar p) 2))
-      with (Some [1 + 0 + 0; 1 + 0 + 0; g + 0 + 0; Cg + 0 + 0; H + p + p; W + p + p]).
+    change (shape_pad [N; g; 1; Cg; H; W] (conv_pad (zlen [N; g; 1; Cg; H; W]) (AScalar p) 2))
+      with (Some [N + 0 + 0; g + 0 + 0; 1 + 0 + 0; Cg + 0 + 0; H + p + p; W + p + p]).
     eexists. split; [reflexivity|]. cbn [vshape eff_pad2 fst snd]. leq.
   - destruct l as [|p0 [|p1 [|]]]; try discriminate Hwf.
     unfold v_pad. rewrite S.
-    change (shape_pad [1; 1; g; Cg; H; W] (conv_pad (zlen [1; 1; g; Cg; H; W]) (AList [p0; p1]) 2))
-      with (Some [1 + 0 + 0; 1 + 0 + 0; g + 0 + 0; Cg + 0 + 0; H + p0 + p0; W + p1 + p1]).
+    change (shape_pad [N; g; 1; Cg; H; W] (conv_pad (zlen [N; g; 1; Cg; H; W]) (AList [p0; p1]) 2))
+      with (Some [N + 0 + 0; g + 0 + 0; 1 + 0 + 0; Cg + 0 + 0; H + p0 + p0; W + p1 + p1]).
     eexists. split; [reflexivity|]. cbn [vshape eff_pad2 fst snd].
     change (znth [p0; p1] 0) with p0. change (znth [p0; p1] 1) with p1. leq.
 Qed.
 
 (* from the two operands to the strided result *)
 Lemma conv2d_shape_core x w bias st pd dl :
-  vshape x = [1; g * Cg; H; W] -> vshape w = [O; Cg; kh; kw] ->
+  vshape x = [N; g * Cg; H; W] -> vshape w = [O; Cg; kh; kw] ->
   (match bias with Some b => vshape b = [O] | None => True end) ->
   wf_arg 2 st -> wf_arg 2 pd -> wf_arg 2 dl ->
   let ph := fst (eff_pad2 pd) in let pw := snd (eff_pad2 pd) in
@@ -134,7 +133,7 @@ Lemma conv2d_shape_core x w bias st pd dl :
   0 <= ph -> 0 <= pw -> 1 <= dh -> 1 <= dw -> 1 <= sh -> 1 <= sw ->
   0 <= H + 2 * ph - dh * (kh - 1) - 1 -> 0 <= W + 2 * pw - dw * (kw - 1) - 1 ->
   exists r, convnd_view 2 x w bias st pd dl g = Some r
-    /\ vshape r = [1; O; conv_out_extent H kh sh ph dh; conv_out_extent W kw sw pw dw].
+    /\ vshape r = [N; O; conv_out_extent H kh sh ph dh; conv_out_extent W kw sw pw dw].
 Proof.
   intros Hx Hw Hb Wst Wpd Wdl ph pw dh dw sh sw Pph Ppw Pdh Pdw Psh Psw PoH PoW.
   destruct (div_pos_exact O g HO Hg HOg) as [Q1 Q2].
@@ -144,45 +143,45 @@ Proof.
   fold ph pw in Sx. fold dh dw in Sa.
   set (KH := kh + (kh - 1) * (dh - 1)) in *. set (KW := kw + (kw - 1) * (dw - 1)) in *.
   rewrite Sa.
-  change (conv_kernel_size [O / g; g; Cg; KH; KW] 2) with [KW; KH].
+  change (conv_kernel_size [g; O / g; Cg; KH; KW] 2) with [KW; KH].
   change (conv_window_axis 2) with [-1; -2].
   rewrite vshape_sw, Sx.
-  change (shape_sliding_window [1; 1; g; Cg; H + 2 * ph; W + 2 * pw] [KW; KH] [-1; -2])
-    with [1; 1; g; Cg; H + 2 * ph - (KH - 1); W + 2 * pw - (KW - 1); KW; KH].
+  change (shape_sliding_window [N; g; 1; Cg; H + 2 * ph; W + 2 * pw] [KW; KH] [-1; -2])
+    with [N; g; 1; Cg; H + 2 * ph - (KH - 1); W + 2 * pw - (KW - 1); KW; KH].
   set (oh := H + 2 * ph - (KH - 1)). set (ow := W + 2 * pw - (KW - 1)).
   assert (Hoh : 1 <= oh) by (unfold oh, KH; nia). assert (How : 1 <= ow) by (unfold ow, KW; nia).
   assert (HKH : 1 <= KH) by (unfold KH; nia). assert (HKW : 1 <= KW) by (unfold KW; nia).
-  replace (posb [1; 1; g; Cg; oh; ow; KW; KH]) with true by (symmetry; posb_true). cbn [negb].
+  replace (posb [N; g; 1; Cg; oh; ow; KW; KH]) with true by (symmetry; posb_true). cbn [negb].
   (* broadcast multiply *)
   unfold v_binop at 1. rewrite !vshape_sw, Sa, Sx.
-  change (shape_sliding_window [1; 1; g; Cg; H + 2 * ph; W + 2 * pw] [KW; KH] [-1; -2])
-    with [1; 1; g; Cg; oh; ow; KW; KH].
-  change (shape_sliding_window [O / g; g; Cg; KH; KW] [KW; KH] [-1; -2])
-    with [O / g; g; Cg; KH - (KH - 1); KW - (KW - 1); KW; KH].
-  assert (B : bshape [1; 1; g; Cg; oh; ow; KW; KH] [O / g; g; Cg; KH - (KH - 1); KW - (KW - 1); KW; KH]
-              = Some [1; O / g; g; Cg; oh; ow; KW; KH]).
+  change (shape_sliding_window [N; g; 1; Cg; H + 2 * ph; W + 2 * pw] [KW; KH] [-1; -2])
+    with [N; g; 1; Cg; oh; ow; KW; KH].
+  change (shape_sliding_window [g; O / g; Cg; KH; KW] [KW; KH] [-1; -2])
+    with [g; O / g; Cg; KH - (KH - 1); KW - (KW - 1); KW; KH].
+  assert (B : bshape [N; g; 1; Cg; oh; ow; KW; KH] [g; O / g; Cg; KH - (KH - 1); KW - (KW - 1); KW; KH]
+              = Some [N; g; O / g; Cg; oh; ow; KW; KH]).
   { replace (KH - (KH - 1)) with 1 by lia. replace (KW - (KW - 1)) with 1 by lia.
     unfold bshape. cbn [rev app bshape_rev].
     rewrite !bc_same, !bc_one_r, bc_one_l. reflexivity. }
   rewrite B. cbn [obind].
   (* sum over the kernel and channel axes *)
   rewrite vshape_sum, vshape_mk.
-  change (axes_mask (zlen [1; O / g; g; Cg; oh; ow; KW; KH]) (conv_sum_axes 2))
+  change (axes_mask (zlen [N; g; O / g; Cg; oh; ow; KW; KH]) (conv_sum_axes 2))
     with [false; false; false; true; false; false; true; true].
   cbn [map negb select].
-  change (conv_reshape_reduce [1; O / g; g; oh; ow] g 2) with [1; O / g * g; oh; ow].
-  rewrite <- Q2.
-  match goal with |- context [v_reshape ?s [1; O; oh; ow]] =>
-    destruct (v_reshape_some s [1; O; oh; ow]) as [rs [Er [Sr _]]] end.
-  { rewrite vshape_sum, vshape_mk. change (axes_mask (zlen [1; O / g; g; Cg; oh; ow; KW; KH]) (conv_sum_axes 2))
+  change (conv_reshape_reduce [N; g; O / g; oh; ow] g 2) with [N; g * (O / g); oh; ow].
+  replace (g * (O / g)) with O by lia.
+  match goal with |- context [v_reshape ?s [N; O; oh; ow]] =>
+    destruct (v_reshape_some s [N; O; oh; ow]) as [rs [Er [Sr _]]] end.
+  { rewrite vshape_sum, vshape_mk. change (axes_mask (zlen [N; g; O / g; Cg; oh; ow; KW; KH]) (conv_sum_axes 2))
       with [false; false; false; true; false; false; true; true]. cbn [map negb select].
-    unfold product. cbn [fold_left]. rewrite Q2 at 2. ring. }
+    unfold product. cbn [fold_left]. set (q := O / g) in *. rewrite Q2. ring. }
   { posb_true. }
   rewrite Er, obind_some. cbv beta.
   (* bias *)
   assert (exists ar, match bias with
             | Some b => obind (v_reshape b (conv_reshape_bias (vshape b) 2)) (fun rb => v_binop Z.add rs rb)
-            | None => Some rs end = Some ar /\ vshape ar = [1; O; oh; ow]) as [ar [Ear Sar]].
+            | None => Some rs end = Some ar /\ vshape ar = [N; O; oh; ow]) as [ar [Ear Sar]].
   { destruct bias as [b|]; [|exists rs; split; [reflexivity|exact Sr]].
     rewrite Hb. change (conv_reshape_bias [O] 2) with [O; 1; 1].
     destruct (v_reshape_some b [O; 1; 1]) as [rb [Eb [Sb _]]].
@@ -251,7 +250,7 @@ Lemma spec_list_str2 a : spec_list a 1 2 = [fst (eff_str2 a); snd (eff_str2 a)].
 Proof. destruct a; reflexivity. Qed.
 Lemma spec_list_pad2 a : spec_list a 0 2 = [fst (eff_pad2 a); snd (eff_pad2 a)].
 Proof. destruct a; reflexivity. Qed.
-Lemma spec_list_dil2 a : spec_list a 1 2 = [snd (eff_dil2 a); fst (eff_dil2 a)].
+Lemma spec_list_dil2 a : spec_list a 1 2 = [fst (eff_dil2 a); snd (eff_dil2 a)].
 Proof. destruct a; reflexivity. Qed.
 
 Lemma posb2 a b : posb [a; b] = true -> 1 <= a /\ 1 <= b.
@@ -282,38 +281,30 @@ Theorem conv2d_out_shape ishape idata wshape wdata bias st pd dl g :
                 = Some (conv_spec_shape 2 ishape wshape st pd dl, elems).
 Proof.
   unfold conv_dom, valid_conv_args. intros D. rewrite !andb_true_iff in D.
-  destruct D as [[[[[[[[[[[[[[[[[Hli Hlw] Hpi] Hpw] Hg] HC] HOg] Hb] Hst] Hpd] Hdl] Wst] Wpd] Wdl] Hsp] HN] Hgrp] Hun].
+  destruct D as [[[[[[[[[[[[[[Hli Hlw] Hpi] Hpw] Hg] HC] HOg] Hb] Hst] Hpd] Hdl] Wst] Wpd] Wdl] Hsp].
   apply Z.eqb_eq in Hli. destruct (zlen_4 _ Hli) as [N [C [H [W ->]]]].
   apply Z.eqb_eq in Hlw. destruct (zlen_4 _ Hlw) as [O [Cg [kh [kw ->]]]].
   change (znth [N; C; H; W] 0) with N in *. change (znth [N; C; H; W] 1) with C in *.
   change (znth [O; Cg; kh; kw] 0) with O in *. change (znth [O; Cg; kh; kw] 1) with Cg in *.
-  apply Z.eqb_eq in HN. subst N. apply Z.eqb_eq in HC. subst C.
-  apply posb4 in Hpi as [_ [_ [PH PW]]]. apply posb4 in Hpw as [PO [PCg [Pkh Pkw]]].
+  apply Z.eqb_eq in HC. subst C.
+  apply posb4 in Hpi as [PN [_ [PH PW]]]. apply posb4 in Hpw as [PO [PCg [Pkh Pkw]]].
   apply Z.leb_le in Hg as Pg. apply Z.eqb_eq in HOg.
   apply (wf_of_zlen 2) in Wst. apply (wf_of_zlen 2) in Wpd. apply (wf_of_zlen 2) in Wdl.
   unfold conv_spec_shape in *.
   rewrite (spec_list_str2 st) in *. rewrite (spec_list_pad2 pd) in *. rewrite (spec_list_dil2 dl) in *.
-  apply posb2 in Hst as [Psh Psw]. apply nonneg2 in Hpd as [Pph Ppw]. apply posb2 in Hdl as [Pdw Pdh].
-  assert (U : fst (eff_dil2 dl) = snd (eff_dil2 dl)).
-  { destruct dl as [| |l]; try reflexivity. destruct l as [|d0 [|d1 [|]]]; try discriminate Wdl.
-    cbn [forallb] in Hun. change (znth [d0; d1] 0) with d0 in Hun. cbn [eff_dil2 fst snd].
-    change (znth [d0; d1] 0) with d0. change (znth [d0; d1] 1) with d1.
-    apply andb_prop in Hun as [_ Hun]. apply andb_prop in Hun as [Hun _]. apply Z.eqb_eq in Hun. lia. }
-  unfold conv_spec_shape in *. change (skipn 2 [1; g * Cg; H; W]) with [H; W] in *.
+  apply posb2 in Hst as [Psh Psw]. apply nonneg2 in Hpd as [Pph Ppw]. apply posb2 in Hdl as [Pdh Pdw].
+  change (skipn 2 [N; g * Cg; H; W]) with [H; W] in *.
   change (skipn 2 [O; Cg; kh; kw]) with [kh; kw] in *. cbn [map5 app] in *.
-  change (znth [1; g * Cg; H; W] 0) with 1 in *. change (znth [O; Cg; kh; kw] 0) with O in *.
+  change (znth [N; g * Cg; H; W] 0) with N in *. change (znth [O; Cg; kh; kw] 0) with O in *.
   apply posb4 in Hsp as [_ [_ [PoH PoW]]].
   apply out_extent_pos in PoH; [|assumption]. apply out_extent_pos in PoW; [|assumption].
-  rewrite <- U in *.
   unfold convnd.
-  destruct (conv2d_shape_core Cg H W O kh kw g PCg PH PW PO Pkh Pkw Pg HOg
-              (v_array [1; g * Cg; H; W] idata) (v_array [O; Cg; kh; kw] wdata)
+  destruct (conv2d_shape_core N Cg H W O kh kw g PN PCg PH PW PO Pkh Pkw Pg HOg
+              (v_array [N; g * Cg; H; W] idata) (v_array [O; Cg; kh; kw] wdata)
               (option_map (fun b => v_array [zlen b] b) bias) st pd dl) as [r [Er Sr]];
     try assumption; try reflexivity.
   { destruct bias as [b|]; [|exact I]. cbn [option_map vshape v_array]. apply Z.eqb_eq in Hb. now rewrite Hb. }
-  { rewrite <- U. assumption. }
-  { rewrite <- U. assumption. }
-  rewrite Er. cbn [option_map]. unfold materialize. rewrite Sr. rewrite <- U. eexists. reflexivity.
+  rewrite Er. cbn [option_map]. unfold materialize. rewrite Sr. eexists. reflexivity.
 Qed.
 
 (* ======================= signed indexing on lists with a known tail ======================= *)
@@ -481,64 +472,62 @@ Qed.
 
 Ltac pos_list := repeat constructor; nia.
 
-(* (N,O,h,w) read from the sum (N,O/g,g,h,w): channel o comes from (o div g, o mod g) *)
+(* (N,O,h,w) read from the sum (N,g,O/g,h,w): channel o comes from (o div (O/g), o mod (O/g)) *)
 Lemma reduce_reshape_index N O g h w n o y x :
   1 <= N -> 1 <= O -> 1 <= g -> O mod g = 0 -> 1 <= h -> 1 <= w ->
   0 <= n < N -> 0 <= o < O -> 0 <= y < h -> 0 <= x < w ->
-  compute_indices (compute_offset [n; o; y; x] (compute_strides [N; O; h; w])) [N; O / g; g; h; w]
-  = [n; o / g; o mod g; y; x].
+  compute_indices (compute_offset [n; o; y; x] (compute_strides [N; O; h; w])) [N; g; O / g; h; w]
+  = [n; o / (O / g); o mod (O / g); y; x].
 Proof.
   intros HN HO Hg HOg Hh Hw Bn Bo By Bx.
-  destruct (div_pos_exact O g HO Hg HOg) as [Q1 Q2].
-  pose proof (Z.div_mod o g ltac:(lia)) as Eo. pose proof (Z.mod_pos_bound o g ltac:(lia)) as Bm.
-  assert (Bq : 0 <= o / g < O / g).
+  destruct (div_pos_exact O g HO Hg HOg) as [Q1 Q2]. set (q := O / g) in *.
+  pose proof (Z.div_mod o q ltac:(lia)) as Eo. pose proof (Z.mod_pos_bound o q ltac:(lia)) as Bm.
+  assert (Bq : 0 <= o / q < g).
   { split; [apply Z.div_pos; lia|]. apply Z.div_lt_upper_bound; [lia|]. nia. }
   apply reshape_index.
   - unfold pos. pos_list.
   - repeat constructor; lia.
-  - cbn [off strides prod]. rewrite Eo at 1. rewrite Q2 at 1. ring.
+  - cbn [off strides prod]. rewrite Eo at 1. rewrite Q2. ring.
 Qed.
 
-(* reshaped weight (O/g,g,Cg,kh,kw) read from (O,Cg,kh,kw): row (oo,gi) is weight row oo*g + gi *)
-Lemma weight_reshape_index O Cg kh kw g oo gi c a b :
+(* reshaped weight (g,O/g,Cg,kh,kw) read from (O,Cg,kh,kw): entry (gi,oo) is weight row gi*(O/g) + oo *)
+Lemma weight_reshape_index O Cg kh kw g gi oo c a b :
   1 <= O -> 1 <= g -> O mod g = 0 -> 1 <= Cg -> 1 <= kh -> 1 <= kw ->
-  0 <= oo < O / g -> 0 <= gi < g -> 0 <= c < Cg -> 0 <= a < kh -> 0 <= b < kw ->
-  compute_indices (compute_offset [oo; gi; c; a; b] (compute_strides [O / g; g; Cg; kh; kw])) [O; Cg; kh; kw]
-  = [oo * g + gi; c; a; b].
+  0 <= gi < g -> 0 <= oo < O / g -> 0 <= c < Cg -> 0 <= a < kh -> 0 <= b < kw ->
+  compute_indices (compute_offset [gi; oo; c; a; b] (compute_strides [g; O / g; Cg; kh; kw])) [O; Cg; kh; kw]
+  = [gi * (O / g) + oo; c; a; b].
 Proof.
-  intros HO Hg HOg HCg Hkh Hkw Bo Bg Bc Ba Bb.
-  destruct (div_pos_exact O g HO Hg HOg) as [Q1 Q2].
+  intros HO Hg HOg HCg Hkh Hkw Bg Bo Bc Ba Bb.
+  destruct (div_pos_exact O g HO Hg HOg) as [Q1 Q2]. set (q := O / g) in *.
   apply reshape_index.
   - unfold pos. pos_list.
   - repeat constructor; try lia. nia.
   - cbn [off strides prod]. ring.
 Qed.
 
-(* reshaped input (1,1,g,Cg,H,W) read from (1,g*Cg,H,W): group gi, channel c is input channel gi*Cg + c *)
-Lemma input_reshape_index g Cg H W gi c y x :
-  1 <= g -> 1 <= Cg -> 1 <= H -> 1 <= W -> 0 <= gi < g -> 0 <= c < Cg -> 0 <= y < H -> 0 <= x < W ->
-  compute_indices (compute_offset [0; 0; gi; c; y; x] (compute_strides [1; 1; g; Cg; H; W])) [1; g * Cg; H; W]
-  = [0; gi * Cg + c; y; x].
+(* reshaped input (N,g,1,Cg,H,W) read from (N,g*Cg,H,W): group gi, channel c is input channel gi*Cg + c *)
+Lemma input_reshape_index N g Cg H W n gi c y x :
+  1 <= N -> 1 <= g -> 1 <= Cg -> 1 <= H -> 1 <= W -> 0 <= n < N -> 0 <= gi < g -> 0 <= c < Cg -> 0 <= y < H -> 0 <= x < W ->
+  compute_indices (compute_offset [n; gi; 0; c; y; x] (compute_strides [N; g; 1; Cg; H; W])) [N; g * Cg; H; W]
+  = [n; gi * Cg + c; y; x].
 Proof.
-  intros Hg HCg HH HW Bg Bc By Bx.
+  intros HN Hg HCg HH HW Bn Bg Bc By Bx.
   apply reshape_index.
   - unfold pos. pos_list.
   - repeat constructor; try lia. nia.
   - cbn [off strides prod]. ring.
 Qed.
 
-(* interleaved = blocked for every channel exactly when there is one group or one output channel per group *)
-Lemma group_agree_iff O g : 1 <= g -> 1 <= O -> O mod g = 0 ->
-  ((forall o, 0 <= o < O -> model_group g o = spec_group O g o) <-> (g = 1 \/ O = g)).
+(* the group read off the reshapes is PyTorch's *)
+Lemma model_group_spec O g o : 1 <= g -> 1 <= O -> O mod g = 0 -> 0 <= o < O ->
+  model_group O g o = spec_group O g o /\ 0 <= model_group O g o < g.
 Proof.
-  intros Hg HO HOg. destruct (div_pos_exact O g HO Hg HOg) as [Q1 Q2]. unfold model_group, spec_group.
-  split.
-  - intros A. destruct (Z.eq_dec g 1) as [|Ng]; [now left|]. destruct (Z.eq_dec (O / g) 1) as [E1|N1]; [right; nia|].
-    exfalso. specialize (A 1 ltac:(nia)).
-    rewrite (Z.mod_small 1 g) in A by lia. rewrite (Z.div_small 1 (O / g)) in A by lia. discriminate.
-  - intros [ E | E ] o Bo; subst.
-    + rewrite Z.mod_1_r, Z.div_1_r. symmetry. apply Z.div_small. lia.
-    + rewrite Z.div_same by lia. rewrite Z.div_1_r. apply Z.mod_small. lia.
+  intros Hg HO HOg Bo. destruct (div_pos_exact O g HO Hg HOg) as [Q1 Q2].
+  unfold model_group, spec_group, compute_indices. rewrite compute_strides_eq. cbn [strides prod compute_indices3 znth nth Z.to_nat].
+  set (q := O / g) in *. rewrite Z.mul_1_r.
+  assert (Bq : 0 <= o / q < g).
+  { split; [apply Z.div_pos; lia|]. apply Z.div_lt_upper_bound; [lia|]. nia. }
+  rewrite Z.mod_small by lia. split; [reflexivity|lia].
 Qed.
 
 (* ======================= pooling ======================= *)
@@ -550,11 +539,29 @@ Proof.
   assert (0 <= (n - k) / s) by (apply Z.div_pos; lia). nia.
 Qed.
 
-Lemma pool_ceil_cover n k s : 1 <= s -> 1 <= k <= n ->
-  let o := pool_extent true n k s in 1 <= o /\ (o - 2) * s + k < n <= (o - 1) * s + k.
+(* ceil((n-k)/s) + 1 windows are the least number that covers the input ... *)
+Lemma ceil_raw_cover n k s : 1 <= s -> 1 <= k <= n ->
+  let o := cdiv (n - k) s + 1 in 1 <= o /\ (o - 2) * s + k < n <= (o - 1) * s + k.
 Proof.
-  intros Hs Hk. unfold pool_extent, cdiv. cbv zeta.
+  intros Hs Hk. unfold cdiv. cbv zeta.
   pose proof (Z.div_mod (- (n - k)) s ltac:(lia)). pose proof (Z.mod_pos_bound (- (n - k)) s ltac:(lia)). nia.
+Qed.
+
+(* ... and the ceil-mode extent drops the last of them when it would start outside: every window starts inside,
+   the windows before the last do not reach the end, and the last one reaches the end or the next would start outside *)
+Lemma pool_ceil_cover n k s : 1 <= s -> 1 <= k <= n ->
+  let o := pool_extent true n k s in
+  1 <= o /\ (o - 1) * s < n /\ (o - 2) * s + k < n /\ (n <= (o - 1) * s + k \/ n <= o * s).
+Proof.
+  intros Hs Hk. pose proof (ceil_raw_cover n k s Hs Hk) as R. cbv zeta in R. unfold pool_extent. cbv zeta.
+  set (o := cdiv (n - k) s + 1) in *. rewrite Z.add_0_r.
+  destruct (n <=? (o - 1) * s) eqn:E; [apply Z.leb_le in E|apply Z.leb_gt in E]; nia.
+Qed.
+
+Lemma pool_extent_spec ceil n k s : pool_extent ceil n k s = pool_out_spec ceil n k s.
+Proof.
+  unfold pool_extent, pool_out_spec. destruct ceil; [|reflexivity]. cbv zeta.
+  rewrite Z.add_0_r, Z.geb_leb. reflexivity.
 Qed.
 
 Lemma tail2 {A} (l : list A) : (2 <= length l)%nat -> exists lead a b, l = lead ++ [a; b] /\ length lead = (length l - 2)%nat.
@@ -600,42 +607,31 @@ Qed.
 Lemma pool_out_shape_dom shape ks ss ceil : pool_dom shape ks ss ceil = true ->
   shape_pool2d shape ks ss ceil = pool_spec_shape shape ks ss ceil.
 Proof.
-  unfold pool_dom. intros D. apply andb_prop in D as [V D].
+  unfold pool_dom. intros V.
   destruct (valid_pool_inv _ _ _ V) as [lead [H [W [kh [kw [sh [sw [-> [-> [-> _]]]]]]]]]].
-  rewrite shape_pool2d_app, pool_spec_shape_app. f_equal.
-  rewrite !zat_app_neg in D by (cbn; lia).
-  change (zat [H; W] (-2)) with H in *. change (zat [H; W] (-1)) with W in *.
-  change (zat [kh; kw] (-2)) with kh in *. change (zat [kh; kw] (-1)) with kw in *.
-  change (zat [sh; sw] (-2)) with sh in *. change (zat [sh; sw] (-1)) with sw in *.
-  destruct ceil; [|reflexivity]. cbn [negb orb] in D. apply andb_prop in D as [D1 D2].
-  unfold pool_out_spec. change (cdiv (H - kh) sh + 1) with (pool_extent true H kh sh).
-  change (cdiv (W - kw) sw + 1) with (pool_extent true W kw sw).
-  apply Z.ltb_lt in D1, D2.
-  rewrite !Z.geb_leb.
-  replace (H <=? (pool_extent true H kh sh - 1) * sh) with false by (symmetry; apply Z.leb_gt; lia).
-  replace (W <=? (pool_extent true W kw sw - 1) * sw) with false by (symmetry; apply Z.leb_gt; lia). reflexivity.
+  rewrite shape_pool2d_app, pool_spec_shape_app, !pool_extent_spec. reflexivity.
 Qed.
 
 (* ======================= conv1d: the shape through the pipeline ======================= *)
 Section Conv1dShape.
-Variables (Cg L O k g : Z).
-Hypotheses (HCg : 1 <= Cg) (HL : 1 <= L) (HO : 1 <= O) (Hk : 1 <= k) (Hg : 1 <= g) (HOg : O mod g = 0).
+Variables (N Cg L O k g : Z).
+Hypotheses (HN : 1 <= N) (HCg : 1 <= Cg) (HL : 1 <= L) (HO : 1 <= O) (Hk : 1 <= k) (Hg : 1 <= g) (HOg : O mod g = 0).
 
 Lemma conv1d_shape_core x w bias st pd dl :
-  vshape x = [1; g * Cg; L] -> vshape w = [O; Cg; k] ->
+  vshape x = [N; g * Cg; L] -> vshape w = [O; Cg; k] ->
   (match bias with Some b => vshape b = [O] | None => True end) ->
   wf_arg 1 st -> wf_arg 1 pd -> wf_arg 1 dl ->
   let p := eff1 0 pd in let d := eff1 1 dl in let s := eff1 1 st in
   0 <= p -> 1 <= d -> 1 <= s -> 0 <= L + 2 * p - d * (k - 1) - 1 ->
-  exists r, convnd_view 1 x w bias st pd dl g = Some r /\ vshape r = [1; O; conv_out_extent L k s p d].
+  exists r, convnd_view 1 x w bias st pd dl g = Some r /\ vshape r = [N; O; conv_out_extent L k s p d].
 Proof.
   intros Hx Hw Hb Wst Wpd Wdl p d s Pp Pd Ps Po.
   destruct (div_pos_exact O g HO Hg HOg) as [Q1 Q2].
   unfold convnd_view.
   (* weight *)
-  assert (exists aw, conv_a_weight 1 w dl g = Some aw /\ vshape aw = [O / g; g; Cg; k + (k - 1) * (d - 1)]) as [aw [Ea Sa]].
-  { unfold conv_a_weight. rewrite Hw. change (conv_reshape_weight [O; Cg; k] g 1) with [O / g; g; Cg; k].
-    destruct (v_reshape_some w [O / g; g; Cg; k]) as [rw [E [S _]]].
+  assert (exists aw, conv_a_weight 1 w dl g = Some aw /\ vshape aw = [g; O / g; Cg; k + (k - 1) * (d - 1)]) as [aw [Ea Sa]].
+  { unfold conv_a_weight. rewrite Hw. change (conv_reshape_weight [O; Cg; k] g 1) with [g; O / g; Cg; k].
+    destruct (v_reshape_some w [g; O / g; Cg; k]) as [rw [E [S _]]].
     { rewrite Hw. unfold product. cbn [fold_left]. rewrite Q2 at 1. ring. } { posb_true. }
     rewrite E, obind_some. subst d. destruct dl as [|d0|l].
     - eexists. split; [reflexivity|]. rewrite S. cbn [eff1]. leq.
@@ -643,52 +639,52 @@ Proof.
     - destruct l as [|d0 [|]]; try discriminate Wdl. eexists. split; [reflexivity|]. unfold v_expand. rewrite vshape_mk, S. reflexivity. }
   rewrite Ea, obind_some. cbv beta.
   (* input *)
-  assert (exists ax, conv_a_input 1 x pd g = Some ax /\ vshape ax = [1; 1; g; Cg; L + 2 * p]) as [ax [Ex Sx]].
-  { unfold conv_a_input. rewrite Hx. change (conv_reshape_input [1; g * Cg; L] g 1) with [1; 1; g; g * Cg / g; L].
+  assert (exists ax, conv_a_input 1 x pd g = Some ax /\ vshape ax = [N; g; 1; Cg; L + 2 * p]) as [ax [Ex Sx]].
+  { unfold conv_a_input. rewrite Hx. change (conv_reshape_input [N; g * Cg; L] g 1) with [N; g; 1; g * Cg / g; L].
     rewrite (mul_div_l g Cg Hg).
-    destruct (v_reshape_some x [1; 1; g; Cg; L]) as [rx [E [S _]]].
+    destruct (v_reshape_some x [N; g; 1; Cg; L]) as [rx [E [S _]]].
     { rewrite Hx. unfold product. cbn [fold_left]. ring. } { posb_true. }
     rewrite E, obind_some. subst p. destruct pd as [|p0|l].
     - eexists. split; [reflexivity|]. rewrite S. cbn [eff1]. leq.
     - unfold v_pad. rewrite S.
-      change (shape_pad [1; 1; g; Cg; L] (conv_pad (zlen [1; 1; g; Cg; L]) (AScalar p0) 1))
-        with (Some [1 + 0 + 0; 1 + 0 + 0; g + 0 + 0; Cg + 0 + 0; L + p0 + p0]).
+      change (shape_pad [N; g; 1; Cg; L] (conv_pad (zlen [N; g; 1; Cg; L]) (AScalar p0) 1))
+        with (Some [N + 0 + 0; g + 0 + 0; 1 + 0 + 0; Cg + 0 + 0; L + p0 + p0]).
       eexists. split; [reflexivity|]. rewrite vshape_mk. cbn [eff1]. leq.
     - destruct l as [|p0 [|]]; try discriminate Wpd. unfold v_pad. rewrite S.
-      change (shape_pad [1; 1; g; Cg; L] (conv_pad (zlen [1; 1; g; Cg; L]) (AList [p0]) 1))
-        with (Some [1 + 0 + 0; 1 + 0 + 0; g + 0 + 0; Cg + 0 + 0; L + p0 + p0]).
+      change (shape_pad [N; g; 1; Cg; L] (conv_pad (zlen [N; g; 1; Cg; L]) (AList [p0]) 1))
+        with (Some [N + 0 + 0; g + 0 + 0; 1 + 0 + 0; Cg + 0 + 0; L + p0 + p0]).
       eexists. split; [reflexivity|]. rewrite vshape_mk. cbn [eff1]. change (znth [p0] 0) with p0. leq. }
   rewrite Ex, obind_some. cbv beta.
   set (K := k + (k - 1) * (d - 1)) in *.
   rewrite Sa.
-  change (conv_kernel_size [O / g; g; Cg; K] 1) with [K]. change (conv_window_axis 1) with [-1].
+  change (conv_kernel_size [g; O / g; Cg; K] 1) with [K]. change (conv_window_axis 1) with [-1].
   rewrite vshape_sw, Sx.
-  change (shape_sliding_window [1; 1; g; Cg; L + 2 * p] [K] [-1]) with [1; 1; g; Cg; L + 2 * p - (K - 1); K].
+  change (shape_sliding_window [N; g; 1; Cg; L + 2 * p] [K] [-1]) with [N; g; 1; Cg; L + 2 * p - (K - 1); K].
   set (ol := L + 2 * p - (K - 1)).
   assert (Hol : 1 <= ol) by (unfold ol, K; nia). assert (HK : 1 <= K) by (unfold K; nia).
-  replace (posb [1; 1; g; Cg; ol; K]) with true by (symmetry; posb_true). cbn [negb].
+  replace (posb [N; g; 1; Cg; ol; K]) with true by (symmetry; posb_true). cbn [negb].
   unfold v_binop at 1. rewrite !vshape_sw, Sa, Sx.
-  change (shape_sliding_window [1; 1; g; Cg; L + 2 * p] [K] [-1]) with [1; 1; g; Cg; ol; K].
-  change (shape_sliding_window [O / g; g; Cg; K] [K] [-1]) with [O / g; g; Cg; K - (K - 1); K].
-  assert (B : bshape [1; 1; g; Cg; ol; K] [O / g; g; Cg; K - (K - 1); K] = Some [1; O / g; g; Cg; ol; K]).
+  change (shape_sliding_window [N; g; 1; Cg; L + 2 * p] [K] [-1]) with [N; g; 1; Cg; ol; K].
+  change (shape_sliding_window [g; O / g; Cg; K] [K] [-1]) with [g; O / g; Cg; K - (K - 1); K].
+  assert (B : bshape [N; g; 1; Cg; ol; K] [g; O / g; Cg; K - (K - 1); K] = Some [N; g; O / g; Cg; ol; K]).
   { replace (K - (K - 1)) with 1 by lia. unfold bshape. cbn [rev app bshape_rev].
     rewrite !bc_same, !bc_one_r, bc_one_l. reflexivity. }
   rewrite B, obind_some. cbv beta.
   rewrite vshape_sum, vshape_mk.
-  change (axes_mask (zlen [1; O / g; g; Cg; ol; K]) (conv_sum_axes 1)) with [false; false; false; true; false; true].
+  change (axes_mask (zlen [N; g; O / g; Cg; ol; K]) (conv_sum_axes 1)) with [false; false; false; true; false; true].
   cbn [map negb select].
-  change (conv_reshape_reduce [1; O / g; g; ol] g 1) with [1; O / g * g; ol].
-  rewrite <- Q2.
-  match goal with |- context [v_reshape ?sv [1; O; ol]] =>
-    destruct (v_reshape_some sv [1; O; ol]) as [rs [Er [Sr _]]] end.
+  change (conv_reshape_reduce [N; g; O / g; ol] g 1) with [N; g * (O / g); ol].
+  replace (g * (O / g)) with O by lia.
+  match goal with |- context [v_reshape ?sv [N; O; ol]] =>
+    destruct (v_reshape_some sv [N; O; ol]) as [rs [Er [Sr _]]] end.
   { rewrite vshape_sum, vshape_mk.
-    change (axes_mask (zlen [1; O / g; g; Cg; ol; K]) (conv_sum_axes 1)) with [false; false; false; true; false; true].
-    cbn [map negb select]. unfold product. cbn [fold_left]. rewrite Q2 at 2. ring. }
+    change (axes_mask (zlen [N; g; O / g; Cg; ol; K]) (conv_sum_axes 1)) with [false; false; false; true; false; true].
+    cbn [map negb select]. unfold product. cbn [fold_left]. set (q := O / g) in *. rewrite Q2. ring. }
   { posb_true. }
   rewrite Er, obind_some. cbv beta.
   assert (exists ar, match bias with
             | Some b => obind (v_reshape b (conv_reshape_bias (vshape b) 1)) (fun rb => v_binop Z.add rs rb)
-            | None => Some rs end = Some ar /\ vshape ar = [1; O; ol]) as [ar [Ear Sar]].
+            | None => Some rs end = Some ar /\ vshape ar = [N; O; ol]) as [ar [Ear Sar]].
   { destruct bias as [b|]; [|exists rs; split; [reflexivity|exact Sr]].
     rewrite Hb. change (conv_reshape_bias [O] 1) with [O; 1].
     destruct (v_reshape_some b [O; 1]) as [rb [Eb [Sb _]]].
@@ -723,23 +719,23 @@ Theorem conv1d_out_shape ishape idata wshape wdata bias st pd dl g :
                 = Some (conv_spec_shape 1 ishape wshape st pd dl, elems).
 Proof.
   unfold conv_dom, valid_conv_args. intros D. rewrite !andb_true_iff in D.
-  destruct D as [[[[[[[[[[[[[[[[[Hli Hlw] Hpi] Hpw] Hg] HC] HOg] Hb] Hst] Hpd] Hdl] Wst] Wpd] Wdl] Hsp] HN] Hgrp] Hun].
+  destruct D as [[[[[[[[[[[[[[Hli Hlw] Hpi] Hpw] Hg] HC] HOg] Hb] Hst] Hpd] Hdl] Wst] Wpd] Wdl] Hsp].
   apply Z.eqb_eq in Hli. destruct (zlen_3 _ Hli) as [N [C [L ->]]].
   apply Z.eqb_eq in Hlw. destruct (zlen_3 _ Hlw) as [O [Cg [k ->]]].
   change (znth [N; C; L] 0) with N in *. change (znth [N; C; L] 1) with C in *.
   change (znth [O; Cg; k] 0) with O in *. change (znth [O; Cg; k] 1) with Cg in *.
-  apply Z.eqb_eq in HN. subst N. apply Z.eqb_eq in HC. subst C.
-  apply posb3 in Hpi as [_ [_ PL]]. apply posb3 in Hpw as [PO [PCg Pk]].
+  apply Z.eqb_eq in HC. subst C.
+  apply posb3 in Hpi as [PN [_ PL]]. apply posb3 in Hpw as [PO [PCg Pk]].
   apply Z.leb_le in Hg as Pg. apply Z.eqb_eq in HOg.
   apply (wf_of_zlen 1) in Wst. apply (wf_of_zlen 1) in Wpd. apply (wf_of_zlen 1) in Wdl.
   unfold conv_spec_shape in *. rewrite !spec_list_1 in *.
   apply posb1 in Hst. apply posb1 in Hdl. cbn [forallb] in Hpd. apply andb_prop in Hpd as [Hpd _]. apply Z.leb_le in Hpd.
-  change (skipn 2 [1; g * Cg; L]) with [L] in *. change (skipn 2 [O; Cg; k]) with [k] in *. cbn [map5 app] in *.
-  change (znth [1; g * Cg; L] 0) with 1 in *. change (znth [O; Cg; k] 0) with O in *.
+  change (skipn 2 [N; g * Cg; L]) with [L] in *. change (skipn 2 [O; Cg; k]) with [k] in *. cbn [map5 app] in *.
+  change (znth [N; g * Cg; L] 0) with N in *. change (znth [O; Cg; k] 0) with O in *.
   apply posb3 in Hsp as [_ [_ Po]]. apply out_extent_pos in Po; [|assumption].
   unfold convnd.
-  destruct (conv1d_shape_core Cg L O k g PCg PL PO Pk Pg HOg
-              (v_array [1; g * Cg; L] idata) (v_array [O; Cg; k] wdata)
+  destruct (conv1d_shape_core N Cg L O k g PN PCg PL PO Pk Pg HOg
+              (v_array [N; g * Cg; L] idata) (v_array [O; Cg; k] wdata)
               (option_map (fun b => v_array [zlen b] b) bias) st pd dl) as [r [Er Sr]];
     try assumption; try reflexivity.
   { destruct bias as [b|]; [|exact I]. cbn [option_map vshape v_array]. apply Z.eqb_eq in Hb. now rewrite Hb. }
@@ -780,10 +776,11 @@ Proof.
   assert (s * y + k <= n) by lia. split; [assumption|]. rewrite Z.min_l by lia. lia.
 Qed.
 
-Lemma window_nonempty_ceil n k s y : 1 <= s -> 1 <= k <= n -> (pool_extent true n k s - 1) * s < n ->
+Lemma window_nonempty_ceil n k s y : 1 <= s -> 1 <= k <= n ->
   0 <= y < pool_extent true n k s -> s * y < n /\ 1 <= Z.min (s * y + k) n - s * y <= k.
 Proof.
-  intros Hs Hk D By. set (o := pool_extent true n k s) in *.
+  intros Hs Hk By. pose proof (pool_ceil_cover n k s Hs Hk) as D. cbv zeta in D. destruct D as [_ [D _]].
+  set (o := pool_extent true n k s) in *.
   assert (s * y <= s * (o - 1)) by (apply Z.mul_le_mono_nonneg_l; lia).
   assert (s * y < n) by lia. split; [assumption|].
   destruct (Z.min_spec (s * y + k) n) as [[_ E]|[_ E]]; rewrite E; lia.
